@@ -5,6 +5,30 @@ sys.path.insert(0, "/verif")
 from sa import props
 PROPS = sorted(props.PROPS)
 
+OLD = {}
+if "--targeted" in sys.argv:
+    # run, for a seed already in seeded/matrix.json, only the checks that caught it there plus the check of its own property
+    sys.argv.remove("--targeted")
+    try:
+        OLD = json.load(open("/verif/seeded/matrix.json"))
+    except (OSError, ValueError):
+        OLD = {}
+
+
+def props_for(seed):
+    name = "/".join(seed.parts[-2:])
+    if name not in OLD:
+        return PROPS
+    want = set(OLD[name]["caught_by"])
+    meta = seed / "meta.json" if seed.is_dir() else None
+    if meta is not None and meta.exists():
+        want.add(json.load(open(meta)).get("property"))
+    else:
+        fixed = [x for x in json.load(open("/verif/known_findings.json"))["fixed"] if x["commit"] == seed.stem]
+        want |= {x["property"] for x in fixed}
+    return [p for p in PROPS if p in want] or PROPS
+
+
 def one(seed):
     seed = pathlib.Path(seed).resolve()
     tmp = pathlib.Path(tempfile.mkdtemp(prefix="seedm_", dir="/tmp"))
@@ -14,7 +38,7 @@ def one(seed):
         r = subprocess.run(["patch", "-p1", "-s", "-i", str(seed / "patch.diff") if seed.is_dir() else str(seed)], cwd=tmp, capture_output=True, text=True)
         if r.returncode:
             return str(seed), {"_patch": "FAILED " + r.stdout[:200]}
-        for p in PROPS:
+        for p in props_for(seed):
             r = subprocess.run(["/verif/check", p, "--root", str(tmp), "--evidence-dir", str(tmp / "ev"), "--quiet"], capture_output=True, text=True)
             first = [l for l in r.stdout.splitlines() if "KNOWN-FINDING" not in l and "VIOLATION" not in l][:1]
             res[p] = (r.returncode, first[0][:200].replace(str(tmp) + "/", "") if first and r.returncode else "")
